@@ -305,6 +305,8 @@ def feasible_path(
                         if val is False and _enum_exhausted(a, txt):
                             clash = True  # an if-chain over every member of an Enum has no fall-through
                             break
+                    if not clash and not _unit_resolve(a):
+                        clash = True
                     if clash:
                         continue
                 st = (s, frozenset(a.items()))
@@ -312,6 +314,46 @@ def feasible_path(
                     prev[st] = cur
                     todo.append(st)
     return None
+
+
+def _unit_resolve(a: Dict[str, bool]) -> bool:
+    """Unit resolution over the recorded facts: from `(A and B)` false and A true conclude B false; from `(A or B)`
+    true and A false conclude B true (a flag computed once and tested twice — `if f and empty: … elif f: …` — makes
+    the second branch know `not empty`). Adds the conclusions to `a`; returns False on a contradiction."""
+    changed = True
+    rounds = 0
+    while changed and rounds < 6:
+        changed = False
+        rounds += 1
+        for txt, val in list(a.items()):
+            if " and " not in txt and " or " not in txt:
+                continue
+            try:
+                e = ast.parse(txt, mode="eval").body
+            except SyntaxError:
+                continue
+            if not isinstance(e, ast.BoolOp):
+                continue
+            is_and = isinstance(e.op, ast.And)
+            if not ((is_and and val is False) or (not is_and and val is True)):
+                continue
+            want = is_and  # the value the other operands must be known to have
+            unknown = []
+            for v in e.values:
+                ats = implied_atoms(v, want)
+                if ats and all(a.get(t) == b for t, b in ats):
+                    continue
+                unknown.append(v)
+            if not unknown:
+                return False
+            if len(unknown) == 1:
+                for t, b in implied_atoms(unknown[0], not want):
+                    if t in a and a[t] != b:
+                        return False
+                    if t not in a:
+                        a[t] = b
+                        changed = True
+    return True
 
 
 def assignment_atoms(st: ast.AST) -> List[Tuple[str, bool]]:
